@@ -1,13 +1,18 @@
+mod astgen;
 mod c04;
 mod c03;
+mod c06;
 mod c08;
 mod c13;
+mod c16;
+mod c17;
 mod c19;
 mod canon;
 mod wrap;
 mod common;
 mod cursor;
 mod o_text;
+mod reflect;
 mod tab;
 mod tokstream;
 use common::*;
@@ -26,14 +31,19 @@ fn main() {
                 "C01" => vec![o_text::c01(&c, &tier)],
                 "C03" => c03::oracle(seed, &tier),
                 "C05" => vec![o_text::c05(&c, &tier)],
+                "C06" => c06::oracle_c06(seed, &tier),
                 "C07" => vec![o_text::c07(&c, &tier)],
                 "C08" => c08::oracle(&c, seed, &tier),
+                "C09" => vec![o_text::c09(&c, &tier, seed)],
                 "C10" => vec![o_text::c10(&c, &tier)],
                 "C11" => vec![o_text::c11(&c, &tier)],
                 "C13" => c13::oracle(&c, seed, &tier),
                 "C14" => o_text::c14(&c, &tier, seed),
                 "C15" => vec![o_text::c15(&c, &tier)],
+                "C16" => c16::oracle(&c, seed, &tier),
+                "C17" => c17::oracle(&c, seed, &tier),
                 "C19" => c19::oracle(&c, seed, &tier),
+                "C20" => c06::oracle_c20(&c, seed, &tier),
                 _ => { eprintln!("no oracle for {p}"); std::process::exit(2) }
             };
             for r in reps { r.emit(); }
@@ -45,9 +55,14 @@ fn main() {
                 "kw" => c08::corr(dir, seed, &tier),
                 "cursor" => cursor::corr(dir, seed, &tier),
                 "lists" => c13::corr(dir, seed, &tier),
+                "stmts" => c13::corr_stmts(dir, seed, &tier),
                 "prec" => c04::corr_prec(dir, seed, &tier),
                 "chains" => c04::corr_chains(dir, seed, &tier),
+                "setops" => c04::corr_setops(dir, seed, &tier),
                 "tok" => tokstream::corr(dir, seed, &tier),
+                "visit" => c16::corr(dir, seed, &tier),
+                "serde" => c17::corr(dir, seed, &tier),
+                "lits" => c06::corr(dir, seed, &tier),
                 _ => { eprintln!("no corr stream {name}"); std::process::exit(2) }
             };
             rep.emit();
